@@ -1,6 +1,8 @@
 import Larking.Gen.Grpc
 import Larking.Gen.Missing
 import Larking.Lemmas.Timeout
+import Larking.Gen.Skel
+import Larking.Expected.C15
 /-
   C15 — gRPC deadlines and cancellation.  `Gen.*` regenerated from /repo, `Spec.*`
   written from the gRPC HTTP/2 protocol document.
@@ -12,6 +14,49 @@ def decode (s : Bytes) : Outcome Int :=
   decodeTimeout Gen.timeoutUnits Gen.timeoutMinLen Gen.timeoutMaxLen Gen.timeoutAcceptsSign s
 
 theorem translator_complete : Gen.missing = [] := by decide
+
+/-- the functions the deadline / cancellation models were written against. -/
+theorem skeleton_unchanged :
+    (Gen.Skel.conds_Mux_serveGRPC,
+     Gen.Skel.stmts_Mux_serveGRPC,
+     Gen.Skel.conds_Mux_serveGRPCWeb,
+     Gen.Skel.stmts_Mux_serveGRPCWeb,
+     Gen.Skel.conds_decodeTimeout,
+     Gen.Skel.stmts_decodeTimeout,
+     Gen.Skel.conds_timeoutUnit,
+     Gen.Skel.stmts_timeoutUnit,
+     Gen.Skel.conds_streamGRPC_isDone,
+     Gen.Skel.stmts_streamGRPC_isDone,
+     Gen.Skel.conds_streamGRPC_begin,
+     Gen.Skel.stmts_streamGRPC_begin,
+     Gen.Skel.conds_streamGRPC_close,
+     Gen.Skel.stmts_streamGRPC_close,
+     Gen.Skel.conds_streamGRPC_RecvMsg,
+     Gen.Skel.stmts_streamGRPC_RecvMsg,
+     Gen.Skel.conds_streamGRPC_SendMsg,
+     Gen.Skel.stmts_streamGRPC_SendMsg,
+     Gen.Skel.conds_streamGRPC_SendHeader,
+     Gen.Skel.stmts_streamGRPC_SendHeader)
+  = (Expected.C15.conds_Mux_serveGRPC,
+     Expected.C15.stmts_Mux_serveGRPC,
+     Expected.C15.conds_Mux_serveGRPCWeb,
+     Expected.C15.stmts_Mux_serveGRPCWeb,
+     Expected.C15.conds_decodeTimeout,
+     Expected.C15.stmts_decodeTimeout,
+     Expected.C15.conds_timeoutUnit,
+     Expected.C15.stmts_timeoutUnit,
+     Expected.C15.conds_streamGRPC_isDone,
+     Expected.C15.stmts_streamGRPC_isDone,
+     Expected.C15.conds_streamGRPC_begin,
+     Expected.C15.stmts_streamGRPC_begin,
+     Expected.C15.conds_streamGRPC_close,
+     Expected.C15.stmts_streamGRPC_close,
+     Expected.C15.conds_streamGRPC_RecvMsg,
+     Expected.C15.stmts_streamGRPC_RecvMsg,
+     Expected.C15.conds_streamGRPC_SendMsg,
+     Expected.C15.stmts_streamGRPC_SendMsg,
+     Expected.C15.conds_streamGRPC_SendHeader,
+     Expected.C15.stmts_streamGRPC_SendHeader) := rfl
 
 /-- the unit table in the code is the specification's. -/
 theorem units_as_spec : ∀ c : UInt8, unitOf Gen.timeoutUnits c = Spec.unitNs c := by
@@ -92,12 +137,47 @@ example : decode [43, 49, 83] = .err "digits" := by decide                    --
 example : Spec.InTimeoutLanguage [48, 48, 55, 109] :=
   ⟨[48, 48, 55], 109, rfl, by decide, by decide, by decide, by decide⟩
 
+/-! ### the header as `serveGRPC` uses it -/
+
+/-- a request carrying a legal grpc-timeout `T` runs its handler under a deadline exactly
+`min(T, MaxInt64 ns)` after receipt — for every digit string of 1..8 digits (leading zeros,
+zero itself) and every unit. -/
+theorem legal_timeout_is_the_deadline (ds : Bytes) (u : UInt8) (h1 : 1 ≤ ds.length) (h8 : ds.length ≤ 8)
+    (hd : ds.all isDigit = true) (hu : Spec.unitNs u ≠ 0) :
+    timeoutGate decode (some (ds ++ [u])) = .run (some (min ((digitsVal ds : Int) * Spec.unitNs u) maxInt64)) := by
+  unfold timeoutGate
+  have hne : (ds ++ [u]).isEmpty = false := by simp
+  simp only [hne, Bool.false_eq_true, if_false, timeout_wellformed ds u h1 h8 hd hu]
+
+/-- a malformed grpc-timeout is refused before any handler is picked: the handler is never
+invoked. -/
+theorem malformed_timeout_refused (v : Bytes) (hv : v ≠ []) (hbad : ¬ Spec.InTimeoutLanguage v) :
+    timeoutGate decode (some v) = .refused := by
+  unfold timeoutGate
+  have hne : v.isEmpty = false := by cases v <;> simp_all
+  simp only [hne, Bool.false_eq_true, if_false]
+  cases hdec : decode v with
+  | ok d => exact absurd (timeout_malformed v d hdec) hbad
+  | err k => rfl
+  | panic x => rfl
+
+/-- no header (or an empty one): the handler runs without a deadline of its own. -/
+theorem no_timeout_no_deadline : timeoutGate decode none = .run none ∧ timeoutGate decode (some []) = .run none := by
+  constructor <;> rfl
+
+example : ∃ d, timeoutGate decode (some [48, 83]) = .run (some d) :=
+  ⟨_, legal_timeout_is_the_deadline [48] 83 (by decide) (by decide) (by decide) (by decide)⟩
+
 end Larking.Props.C15
 
 #print axioms Larking.Props.C15.translator_complete
+#print axioms Larking.Props.C15.skeleton_unchanged
 #print axioms Larking.Props.C15.units_as_spec
 #print axioms Larking.Props.C15.timeout_wellformed
 #print axioms Larking.Props.C15.timeout_malformed
 #print axioms Larking.Props.C15.timeout_in_range
 #print axioms Larking.Props.C15.ops_fail_after_cancel
 #print axioms Larking.Props.C15.ops_all_present
+#print axioms Larking.Props.C15.legal_timeout_is_the_deadline
+#print axioms Larking.Props.C15.malformed_timeout_refused
+#print axioms Larking.Props.C15.no_timeout_no_deadline
